@@ -33,9 +33,11 @@ def eff(name, cfg):
 
 def analyzer_plan(name, cfg):
     from speckit import SpectrumAnalyzer
+    # the scheduler is named, or handed over as the library's own function object
+    sched = sched_func(name) if cfg.get("sched_as") == "function" else name
     an = SpectrumAnalyzer(np.zeros(int(cfg["N"])), float(cfg["fs"]), olap=float(cfg["olap"]),
                           bmin=float(cfg["bmin"]), Lmin=int(cfg["Lmin"]), Jdes=int(cfg["Jdes"]),
-                          Kdes=int(cfg["Kdes"]), scheduler=name, verbose=bool(cfg.get("verbose", False)))
+                          Kdes=int(cfg["Kdes"]), scheduler=sched, verbose=bool(cfg.get("verbose", False)))
     return an.plan()
 
 
@@ -54,6 +56,7 @@ def config(draw, tier):
             cfg["bmin"] = 1.0
     cfg["sched"] = draw(st.sampled_from(NAMES))
     cfg["verbose"] = draw(st.booleans())      # analyzer option: must not matter for the plan
+    cfg["sched_as"] = draw(st.sampled_from(["name", "name", "function"]))
     return cfg
 
 
@@ -85,7 +88,8 @@ def grid_configs(tier):
                                 if name == "lpsd" and (bmin != 1.0 or Lmin != 1):
                                     continue  # lpsd ignores them: one representative
                                 yield {"N": N, "fs": 1.0, "olap": olap, "bmin": bmin, "Lmin": Lmin,
-                                       "Jdes": J, "Kdes": K, "sched": name, "verbose": (N + J + K) % 2 == 1}
+                                       "Jdes": J, "Kdes": K, "sched": name, "verbose": (N + J + K) % 2 == 1,
+                                       "sched_as": "function" if (N + Lmin + K) % 3 == 0 else "name"}
 
 
 def classify(name, cfg, plan):
